@@ -129,6 +129,12 @@ def build_engine(world, sim, yp_class, ctl, warmup=False, shadow=False):
             else:
                 # every other dynamic fact has a different atom in every position (q(V,V)-style calls must fail on it cleanly)
                 yp.assert_fact(yp.atom(n), [yp.atom('dyn%d' % (k + (j if k % 2 == 0 else 0))) for j in range(a)])
+    if world.get('exotic'):
+        # plain Python constants as terms, also the falsy ones and ones equal to each other
+        for n, a, extra in world['dynamic'][:2]:
+            if n != 'k' and a >= 1:
+                for c_ in (0, '', 1.0, False, None, 0.0):
+                    yp.assert_fact(yp.atom(n), [c_] * a)
     qvars = {}
     qargs = [TM.build(yp, TM.T(t), qvars) for t in world['query'][1]]
     held = []
@@ -187,6 +193,8 @@ def run_query(sim, yp, name, qargs, ctl, k, mode, fault, cap=ANSWER_CAP):
             end = 'thrown:' + (r if isinstance(r, str) else '/'.join(r))
         else:
             task.close()
+            if task.not_closable:
+                info['not_closable'] = True
             end = 'closed' if end is None else 'cap-closed'
     info['calls'] = ctl['calls']
     info['fired'] = ctl['fired']
@@ -402,6 +410,9 @@ def execute(plan):
             return True
         if info.get('dead') is False:
             log.violation('not-finalised-on-drop', {'fault': tag})
+            return True
+        if info.get('not_closable'):
+            log.violation('query-cannot-be-closed', {'fault': tag, 'note': 'the object returned by YP.query has no close()'})
             return True
         if ctl['live'] != 0:
             log.violation('native-generator-left-suspended', {'fault': tag, 'live': ctl['live']})
